@@ -140,13 +140,15 @@ def jsonable(x):
 
 
 L2_GROUPS = {"T2": {"C01", "C02", "C03", "C04", "C05", "C06", "C07"}, "T1": {"C09", "C10", "C11"},
-             "T3": {"C05", "C06"}, "T4": {"C01", "C04", "C05"}, "T5": {"C08"}, "T6": {"C03", "C04", "C05"}, "T7": {"C15"}, "T8": {"C20"}, "T9": {"C11", "C10"}, "T10": {"C10"}, "T11": {"C01", "C02", "C06", "C17"}, "T12": {"C11", "C12"}, "T13": {"C17", "C18"}}
+             "T3": {"C05", "C06"}, "T4": {"C01", "C04", "C05"}, "T5": {"C08"}, "T6": {"C03", "C04", "C05"}, "T7": {"C15"}, "T8": {"C20"}, "T9": {"C11", "C10"}, "T10": {"C10"}, "T11": {"C01", "C02", "C06", "C17"}, "T12": {"C11", "C12"}, "T13": {"C17", "C18"},
+             "T14": {"C14", "C15", "C16"}}
 L2_SOURCE = {"T1": ("translate.py", "Tr"), "T2": ("translate.py", "Tr"), "T3": ("translate.py", "Tr"),
              "T4": ("translate_host.py", "TrHost"), "T5": ("translate_host.py", "TrHost"),
              "T6": ("translate_loops.py", "TrLoops"), "T7": ("translate_gen.py", "TrGen"),
              "T8": ("translate_bound.py", "TrBound"), "T9": ("translate_actions.py", "TrActions"),
              "T10": ("translate_bounds.py", "TrSpace"), "T11": ("translate_search.py", "TrSearch"),
-             "T12": ("translate_param.py", "TrParam"), "T13": ("translate_loader.py", "TrLoader")}
+             "T12": ("translate_param.py", "TrParam"), "T13": ("translate_loader.py", "TrLoader"),
+             "T14": ("translate_phases.py", "TrPhases")}
 L2_WHAT = {"T1": "index arithmetic of HostVector._update_vector_idxs, Scenario.get_state_dims / get_observation_dims / "
                  "get_action_space_size and ParameterisedActionSpace nvec",
            "T2": "gate cascade of Network.perform_action (order, polarity, chance comparison)",
@@ -160,7 +162,8 @@ L2_WHAT = {"T1": "index arithmetic of HostVector._update_vector_idxs, Scenario.g
            "T10": "low / high of the observation space (Observation.get_space_bounds and the two min/max loops it reads)",
            "T11": "search loops of Network: has_required_remote_permission, traffic_permitted, subnet_traffic_permitted, goal test, state accessors, host-level deny rule",
            "T12": "ParameterisedActionSpace.get_action: meaning of each vector component, class order, subnet + 1, host modulo, 0 = any OS, scan cost fields",
-           "T13": "loader rules for a host's value entry (_get_host_value, the value block of _validate_host_config) and for the optional step limit"}
+           "T13": "loader rules for a host's value entry (_get_host_value, the value block of _validate_host_config) and for the optional step limit",
+           "T14": "phase sequence of ScenarioGenerator.generate (which step draws after which, what each step reads, the seed applied before the first draw, every draw through numpy's global generator)"}
 
 
 def level2(pid, log):
